@@ -74,7 +74,7 @@ def run(tier, seed):
         rule='all streams over {Ping(empty / 1 byte / 125-byte blob), text fragments, binary, Close} up to the bound x several items per '
              'read x auto_pong on/off x application send/close at events x failing pong writes; non-trivial = distinct histories '
              'containing a Ping event',
-        nontrivial=nontrivial, anchors=anchors, variants=variants, post=post, judge_field='', sample_keys=('ev', 'wr', 'wrf', 'call'),
+        nontrivial=nontrivial, need_actions=('FeedNext', 'AppReact', 'CloseEcho'), anchors=anchors, variants=variants, post=post, judge_field='', sample_keys=('ev', 'wr', 'wrf', 'call'),
         random_scripts=[{'cfgname': 'CfgPlain', 'cfg': PLAIN, 'n': (300, 4000), 'items': 'C14Items', 'faults': {'all'}}])
     need = {'pong_written', 'several_pings', 'pong_write_failed', 'ping_between_fragments', 'ping_while_closing', 'app_send_with_ping'}
     missing = sorted(need - seen)
